@@ -51,6 +51,9 @@ struct Registration {
 pub struct Timer {
     registration: Option<Registration>,
     deadline: Option<Instant>,
+    // whether the timer is currently registered to (enabled in) an event loop,
+    // independently of having a deadline to arm
+    enabled: bool,
 }
 
 impl Timer {
@@ -73,6 +76,7 @@ impl Timer {
         Timer {
             registration: None,
             deadline,
+            enabled: false,
         }
     }
 
@@ -145,6 +149,7 @@ impl EventSource for Timer {
     fn register(&mut self, poll: &mut Poll, token_factory: &mut TokenFactory) -> crate::Result<()> {
         // Registering an already armed timer re-arms it instead of arming it a second time.
         self.unregister(poll)?;
+        self.enabled = true;
         // Only register a deadline if we haven't overflowed.
         if let Some(deadline) = self.deadline {
             let wheel = poll.timers.clone();
@@ -165,6 +170,10 @@ impl EventSource for Timer {
         poll: &mut Poll,
         token_factory: &mut TokenFactory,
     ) -> crate::Result<()> {
+        // updating a disabled timer must not arm it: only enable() does
+        if !self.enabled {
+            return Ok(());
+        }
         self.unregister(poll)?;
         self.register(poll, token_factory)
     }
@@ -173,6 +182,7 @@ impl EventSource for Timer {
         if let Some(registration) = self.registration.take() {
             poll.timers.borrow_mut().cancel(registration.counter);
         }
+        self.enabled = false;
         Ok(())
     }
 }
